@@ -99,10 +99,10 @@ RT = [RU("ttl2", nkeys=2, depth=7), RU("tti2", nkeys=2, depth=7), RU("cap_unit",
       RS("cap2_tti", depth=7), RS("cap2_ttl_tti_w", weights=(1, 5), depth=6), RS("cap_const", weights=(1, 2), depth=6),
       RS("cap1", nkeys=3, depth=6)]
 VQ = [("unsync-small", 120, 40), ("unsync-mid", 30, 120), ("sync-small", 120, 40), ("sync-mid", 30, 120),
-      ("sync-eager", 40, 60), ("sync-far", 150, 16), ("sync-burst", 200, 3), ("sync-stale", 600, 0), ("sync-flush", 14, 0), ("sync-grow", 100, 2),
+      ("sync-eager", 40, 60), ("sync-far", 150, 16), ("sync-burst", 200, 3), ("sync-stale", 600, 0), ("sync-mixed", 600, 0), ("sync-flush", 14, 0), ("sync-grow", 100, 2),
       ("unsync-batch", 16, 0), ("sync-batch", 2, 0), ("sync-reads", 2, 0), ("sync-evict", 1, 0), ("unsync-fill", 1, 0), ("unsync-admit", 900, 0), ("sync-admit", 500, 0), ("unsync-exp", 500, 30), ("sync-exp", 120, 30)]
 VT = [("unsync-small", 2000, 60), ("unsync-mid", 400, 400), ("sync-small", 2000, 60), ("sync-mid", 400, 400),
-      ("sync-eager", 600, 120), ("sync-far", 6000, 20), ("sync-burst", 2500, 4), ("sync-stale", 5000, 0), ("sync-flush", 60, 0), ("sync-grow", 1200, 2),
+      ("sync-eager", 600, 120), ("sync-far", 6000, 20), ("sync-burst", 2500, 4), ("sync-stale", 5000, 0), ("sync-mixed", 6000, 0), ("sync-flush", 60, 0), ("sync-grow", 1200, 2),
       ("unsync-batch", 120, 0), ("sync-batch", 12, 0), ("sync-reads", 12, 0), ("sync-evict", 8, 0), ("unsync-fill", 8, 0), ("unsync-admit", 9000, 0), ("sync-admit", 9000, 0), ("unsync-exp", 4000, 40), ("sync-exp", 2000, 40)]
 
 QSLICES = {
